@@ -157,4 +157,8 @@ fn float_mm_sqrt_accuracy() {
 // Tried and dropped: accuracy of the fast reciprocal square roots (r*r*x within 1 % of 1 on [1e-18, 1e18]): no verdict in 18 min
 // in either backend (three chained symbolic products on top of the Newton step; limit L1). Finiteness/positivity is decided above.
 
+// Tried and dropped: fallback::rem_euclid on ten CONCRETE dyadic argument pairs (the single-concrete-input form that decides
+// inverse() and parse_obj): fails in 0.1 s with a spurious counterexample -- CBMC's f32 `%` is nondeterministic even on constant
+// operands, so no clause about rem_euclid (and nothing built on it: Angle::wrap, the float HSL hue) is decidable here.
+
 include!("gen/dispatch_float.rs");
